@@ -1,11 +1,22 @@
 """C07 -- the SMTP server enforces command order, resets transaction state, answers every command line
 exactly once and ends the session on 221/421.
 
-The real slimta.smtp.server.Server is driven in STOP-AND-WAIT mode: the server asks for the next unit by
+The real slimta.smtp.server.Server is driven by a scripted client: the server asks for more input by
 calling recv() when nothing is pending; everything written to the socket and every callback logged since
-the previous recv() boundary belongs to the previous unit (exact attribution, no after-the-fact
-alignment).  A message body (+ end-of-data line) is supplied only if the reply to DATA was 354, an AUTH
-response line only after a 334.  Two handler kinds: a recording handler object implementing the whole
+the previous recv() boundary belongs to the lines handed over at that boundary.  STOP-AND-WAIT framing hands
+over one unit per boundary (exact attribution, no after-the-fact alignment).  PIPELINED framings hand over
+several complete lines in ONE segment -- everything up to the next line a pipelining client has to wait at
+(DATA, AUTH, STARTTLS: "burst"), or groups of 2 / 3 / 5 lines; message content is followed by further
+lines in the same segment.  There the client-visible reply stream is judged as the client sees it: the i-th
+final reply answers the i-th line of the segment, nothing may follow a 221/421 reply (no reply, no callback
+of a line behind it), and when handle() exits every line the server took must have been answered ON THE
+WIRE (replies that were produced but never reached the socket are 'replies-never-reached-client').
+Callbacks are attributed to the line whose bytes the server consumed last (bytes returned by its reads
+minus len(Server.io.recv_buffer), read-only); the implementation flags are compared at rest only (end of a
+segment).  A message body (+ end-of-data line) is supplied only if the reply to DATA was 354, an AUTH
+response line only after a 334.  Verdict 'raise' makes the callback / validator raise: the line is still
+owed exactly one final reply.  XCMD is a command the application added to its handler object (verdicts of
+every reply class).  Two handler kinds: a recording handler object implementing the whole
 callback API, and the real slimta.edge.smtp.SmtpSession (sub-classed only to log the calls the Server
 makes) with a validator class that applies the scripted verdict and a stub hand-off that collects
 envelopes.  Extension sets without STARTTLS run on vf.sock.ScriptSocket; sets offering STARTTLS run over a
@@ -45,7 +56,11 @@ generator (consumed lazily, case by case, by the same worker) reads to decide wh
 BFS step is an ordinary replayable case.  (2) all sequences of length 2 after no prefix, after EHLO, after EHLO MAIL RCPT, after EHLO MAIL<> RCPT and
 (STARTTLS sets) after EHLO STARTTLS EHLO; thorough adds
 all sequences of length 3 over a reduced 31-symbol alphabet after the same prefixes and over the full alphabet after EHLO
-for the configurations without STARTTLS.  (3) seeded random walks up to 12 units.
+for the configurations without STARTTLS.  (3) seeded random walks up to 12 units (full alphabet incl. the session-ending EXTRA symbols, which the BFS
+also tries from every abstract state).  (4) pipelined strata: a closing verdict (421 / 221 / raise / QUIT / a line the
+server aborts on) and the non-closing rejections at every command position of two template sessions x framings
+{burst, 2, 3, 5, stop-and-wait}; every symbol with lines before and behind it in one segment; all pairs over a
+reduced alphabet in one burst; random walks in a random pipelined framing.
 """
 import re
 import base64
@@ -60,6 +75,7 @@ from vf.sock import ScriptSocket
 from vf import tls as vtls
 from slimta.smtp.server import Server
 from slimta.smtp import ConnectionLost
+from slimta.queue import QueueError
 from slimta.smtp.auth import AuthSession
 from pysasl import SASLAuth
 import slimta.edge.smtp as edge_smtp
@@ -67,12 +83,16 @@ from slimta.edge.smtp import SmtpSession, SmtpValidators
 
 PROPERTY = 'C07'
 LEVEL = 'exploration'
-LEVEL_TEXT = ('Real Server (+ real SmtpSession in half of the configurations) driven stop-and-wait on a scripted '
+LEVEL_TEXT = ('Real Server (+ real SmtpSession in half of the configurations) driven stop-and-wait and with pipelined '
+              'framings (several complete lines per segment) on a scripted '
               'socket (or a socketpair with real TLS when STARTTLS is offered). Online spec automaton advanced from '
-              'observed replies; exact recv-boundary attribution. Explored: BFS closure of the abstract state graph '
+              'observed replies; exact recv-boundary attribution; in a pipelined segment the client-visible reply stream is '
+              'judged by position and must be complete when handle() exits. Explored: BFS closure of the abstract state graph '
               '(automaton state x implementation flags x envelope shape) per (extension set, handler kind) with every '
               'alphabet symbol tried from every abstract state; all symbol sequences of length 2 (thorough: 3, see RULE) after '
-              '{no prefix, EHLO, EHLO MAIL RCPT, EHLO MAIL<> RCPT}; seeded random walks to 12 units. Exhaustive only for the abstract graph (monitor '
+              '{no prefix, EHLO, EHLO MAIL RCPT, EHLO MAIL<> RCPT}; seeded random walks to 12 units; pipelined strata (closing verdict / '
+              'handler failure at every position of template sessions x 5 framings, every symbol inside a segment, pairs in one burst, '
+              'pipelined random walks). Exhaustive only for the abstract graph (monitor '
               '"bfs-closure-reached" counts closed configurations; one witness prefix per abstract state) and for the '
               'bounded-depth enumeration when the generator was not cut; everything else is sampling. Held = held on '
               'the sequences run.')
@@ -86,27 +106,39 @@ RULE = ('case = (extension set in {default,SIZE,STARTTLS,AUTH,ALL}, handler kind
         'sequence of symbols); symbol = command form (EHLO, EHLO address literal, HELO, MAIL ok / null reverse-path <> (also with '
         'SIZE) / 4 malformed / SIZE ok / SIZE over / 8-bit, RCPT ok / <postmaster> / empty <> / 3 malformed, DATA+content small / empty / over-limit, DATA with argument, RSET, RSET arg, NOOP, QUIT, '
         'QUIT arg, STARTTLS, STARTTLS arg, AUTH PLAIN initial-response / challenge / empty identity / LOGIN / cancel / bad base64 / unknown '
-        'mechanism / bare, unknown verb, empty line, CLOSE, TLSHANDSHAKE, BANNER_, HAVE_DATA) x handler verdict for '
-        'that callback in {accept,450,550,421} (message-received also 221). Generated by (1) BFS closure of the abstract '
-        'state graph, (2) all sequences of length 2 after {nothing, EHLO, EHLO MAIL RCPT, EHLO MAIL<> RCPT, and EHLO STARTTLS EHLO where offered} (thorough: also length 3 over a reduced 31-symbol alphabet after the same prefixes and over the full alphabet after EHLO for configurations without STARTTLS), (3) seeded random walks up to 12 units. '
+        'mechanism / bare, unknown verb, non-verb, empty line, over-long (4200-byte) unknown / NOOP / MAIL lines, bare-LF line, 8-bit EHLO / MAIL / RCPT, '
+        'application-defined command XCMD, CLOSE, TLSHANDSHAKE, BANNER_, HAVE_DATA) x handler verdict for '
+        'that callback in {accept,450,550,421} (also 221, 451, 554, callback raises; XCMD also 354 and untouched reply) x framing in '
+        '{stop-and-wait, burst, 2-, 3-, 5-line groups}. Generated by (1) BFS closure of the abstract '
+        'state graph, (2) all sequences of length 2 after {nothing, EHLO, EHLO MAIL RCPT, EHLO MAIL<> RCPT, and EHLO STARTTLS EHLO where offered} (thorough: also length 3 over a reduced 31-symbol alphabet after the same prefixes and over the full alphabet after EHLO for configurations without STARTTLS), (3) seeded random walks up to 12 units, (4) pipelined strata: closing / non-closing verdict at every position of 2 template sessions x 5 framings, '
+        'every symbol inside one segment after 3-4 prefixes, all pairs over a reduced alphabet in one burst (quick: a quarter of the configurations, rotating with the seed), '
+        'random walks in a random pipelined framing. '
         'One case = one session = one evaluation. non-trivial & distinct = distinct (config, sequence) that reaches an '
         'open transaction (MAIL accepted) or contains a rejected command followed by a command that depends on it '
         '(EHLO/HELO -> MAIL, MAIL -> RCPT/DATA, RCPT -> DATA)')
-ASSUMPTIONS = ['stop-and-wait client: one unit is in flight at a time (pipelined input is C09\'s subject)',
-               'scripted verdicts are a function of the current unit only; the recording handler and the validator class '
-               'never raise',
+ASSUMPTIONS = ['pipelined client is RFC 2920-conformant in one respect: nothing is sent behind DATA, AUTH (and its responses) or STARTTLS '
+               'before their reply was seen (bytes behind those are C05/C08/C09\'s subject); anything else may share a segment',
+               'in a pipelined segment callbacks are attributed to a line through Server.io.recv_buffer (read-only) and replies by '
+               'their position in the stream; implementation flags are compared with the automaton only at the end of a segment',
+               'a line the server never took because it aborted the session at an earlier line of the same segment (exception leaving '
+               'handle() after its 4xx/5xx reply, no 221/421) is counted (lines-never-taken-after-server-exit), not a violation: the same abort is only '
+               'an observation in stop-and-wait framing',
+               'scripted verdicts are a function of the current unit only; a callback raises only where the verdict says so '
+               '(HandlerBoom); the statement does not say which reply a failing callback produces, only that there is exactly one',
                'slimta.edge.smtp.PtrLookup is replaced by a stub (no DNS in the sandbox); the hand-off stub always succeeds',
                'AUTH credentials are never verified by the harness handler beyond applying the scripted verdict',
                'after a successful STARTTLS the automaton treats helo_done / an open transaction as unknown (statement is '
                'silent; see C08)',
                'TLS: self-signed certificate, client does not verify it']
 REQUIRED_HITS = ['order-oracle', 'reply-count-oracle', 'reset-oracle', 'close-code-oracle', 'handoff-envelope-oracle',
-                 'flags-invariant', 'bfs-closure-reached', 'tls-handshake-performed', 'auth-334-exchange']
-SHARDS = {'quick': 12, 'thorough': 16}
+                 'flags-invariant', 'bfs-closure-reached', 'tls-handshake-performed', 'auth-334-exchange',
+                 'pipelined-reply-stream-oracle', 'pipelined-close-mid-group', 'handler-exception-oracle']
+SHARDS = {'quick': 16, 'thorough': 16}
 BUDGET = {'quick': 58, 'thorough': 800}
 EXHAUSTIVE = {'quick': False, 'thorough': False}
 
 NWALKS = {'quick': 10000, 'thorough': 100000}
+NPIPEWALKS = {'quick': 10000, 'thorough': 100000}
 LIMIT = 100
 EXTS = ['default', 'SIZE', 'STARTTLS', 'AUTH', 'ALL']
 KINDS = ['rec', 'session']
@@ -117,7 +149,14 @@ EXT_FEATURES = {'default': (), 'SIZE': ('SIZE',), 'STARTTLS': ('STARTTLS',), 'AU
 # ---------------------------------------------------------------- alphabet
 
 VTEXT = {'450': ('450', '4.0.0 try again later'), '550': ('550', '5.0.0 refused'),
-         '421': ('421', '4.0.0 closing connection'), '221': ('221', '2.0.0 closing connection')}
+         '421': ('421', '4.0.0 closing connection'), '221': ('221', '2.0.0 closing connection'),
+         '451': ('451', '4.3.0 local error'), 'qfail': ('451', '4.3.0 Error queuing message'), '554': ('554', '5.5.0 no'), '354': ('354', 'go on')}
+LONG = 4200          # an over-long line: longer than the 4096-byte reads of slimta.smtp.io.IO
+
+
+class HandlerBoom(Exception):
+    """Scripted verdict 'raise': the application's callback / validator fails."""
+
 CLOSE_CODES = ('221', '421')
 _PLAIN = base64.b64encode(b'\x00user\x00pass')
 BODY_SMALL = b'Subject: t\r\n\r\nhello\r\n'
@@ -175,31 +214,79 @@ BASES = {
     'AUTHbare': ('bad', b'AUTH', None, []),
     'UNK': ('bad', b'FOO bar', None, None),
     'EMPTY': ('bad', b'', None, None),
+    # not even a verb; over-long lines (longer than one read of the server); a line ended by a bare LF;
+    # 8-bit bytes in the other address-carrying commands
+    'UNKnum': ('bad', b'123 go', None, None),
+    'UNKlong': ('bad', b'FOO ' + b'x' * LONG, None, None),
+    'NOOPlong': ('free', b'NOOP ' + b'x' * LONG, 'NOOP', None),
+    'MAILlong': ('mailp', b'MAIL FROM:<' + b'a' * LONG + b'@x.test>', 'MAIL', None),
+    'NOOPlf': ('free', b'NOOP\n', 'NOOP', None),
+    'EHLO8bit': ('bad', b'EHLO \xff\xfe', None, None),
+    'RCPT8bit': ('bad', b'RCPT TO:<\xff%d@x.test>', None, None),
+    # case-insensitive verbs and keywords, optional space after the colon, quoted local part holding '>', mail
+    # parameters with and without value; a path that never closes, an unbalanced quote
+    'EHLOlc': ('helo', b'ehlo c%d.test', 'EHLO', None),
+    'MAILlc': ('mail', b'mail from:<s%d@x.test>', 'MAIL', None),
+    'RCPTlc': ('rcpt', b'rcpt to:<r%d@x.test>', 'RCPT', None),
+    'MAILsp': ('mailp', b'MAIL FROM: <s%d@x.test>', 'MAIL', None),
+    'MAILquoted': ('mail', b'MAIL FROM:<"a>b"@x.test>', 'MAIL', None),
+    'MAILparams': ('mail', b'MAIL FROM:<s%d@x.test> BODY=8BITMIME SMTPUTF8', 'MAIL', None),
+    'MAILnoclose': ('bad', b'MAIL FROM:<s%d@x.test', None, None),
+    'MAILquote': ('bad', b'MAIL FROM:<"s%d@x.test>', None, None),
+    'RCPTnoclose': ('bad', b'RCPT TO:<r%d@x.test', None, None),
+    'AUTHjunk': ('bad', b'AUTH PLAIN ' + base64.b64encode(b'no-separators'), None, []),
+    # a command the application added to its handler object (Server._command_custom): verdicts of every class
+    'XCMD': ('free', b'XCMD arg%d', 'XCMD', None),
     'CLOSE': ('bad', b'CLOSE', None, None),
     'TLSHANDSHAKE': ('bad', b'TLSHANDSHAKE', None, None),
     'BANNER_': ('bad', b'BANNER_', None, None),
     'HAVE_DATA': ('bad', b'HAVE_DATA x', None, None),
 }
 # the argument the callback must receive, where it is not the default of the kind
-ARGS = {'MAILnull': '', 'MAILnullsize': '', 'RCPTpm': 'postmaster', 'RCPTnull': '', 'EHLOlit': '[127.0.0.1]'}
-AUTH_BASES = ('AUTH', 'AUTHchal', 'AUTHlogin', 'AUTHempty', 'AUTHcancel', 'AUTHbadb64', 'AUTHmech', 'AUTHbare')
+ARGS = {'MAILnull': '', 'MAILnullsize': '', 'RCPTpm': 'postmaster', 'RCPTnull': '', 'EHLOlit': '[127.0.0.1]',
+        'MAILlong': 'a' * LONG + '@x.test', 'MAILquoted': '"a>b"@x.test'}
+AUTH_BASES = ('AUTH', 'AUTHchal', 'AUTHlogin', 'AUTHempty', 'AUTHcancel', 'AUTHbadb64', 'AUTHmech', 'AUTHbare', 'AUTHjunk')
 V4 = ('ok', '450', '550', '421')
+
+
+EXTRA_BASES = ('UNKnum', 'UNKlong', 'NOOPlong', 'MAILlong', 'NOOPlf', 'EHLO8bit', 'RCPT8bit', 'EHLOlc', 'MAILlc', 'RCPTlc',
+               'MAILsp', 'MAILquoted', 'MAILparams', 'MAILnoclose', 'MAILquote', 'RCPTnoclose', 'AUTHjunk')
 
 
 def build_alphabet():
     a = []
     for b in ('EHLO', 'HELO', 'MAIL', 'RCPT', 'RSET', 'NOOP', 'QUIT', 'STARTTLS', 'AUTH'):
         a += [b if v == 'ok' else b + '/' + v for v in V4]
+    a += ['XCMD']
     a += ['AUTHchal', 'AUTHchal/550', 'AUTHlogin', 'AUTHempty', 'MAILsize', 'MAILsize/550', 'MAIL/221']
     a += ['MAILnull' if v == 'ok' else 'MAILnull/' + v for v in V4]
     a += ['MAILnullsize', 'MAILnullsize/550', 'RCPTpm', 'RCPTnull', 'RCPTnull/550', 'EHLOlit']
     a += ['DATA/450', 'DATA/550', 'DATA/421', 'DATA', 'DATA/ok/450', 'DATA/ok/550', 'DATA/ok/421', 'DATA/ok/221',
           'DATAempty', 'DATAempty/ok/550', 'DATAbig', 'DATAbig/ok/421']
-    a += [b for b in BASES if BASES[b][0] == 'bad']
+    a += [b for b in BASES if BASES[b][0] == 'bad' and b not in EXTRA_BASES]
     return a
 
 
 ALPHABET = build_alphabet()
+# Not part of the bounded-depth enumeration (they end the session or are variants of symbols that are), but tried from
+# every abstract state by the BFS, used by the random walks and by the pipelined strata: the handler / validator
+# raises, 221 chosen by more callbacks, custom-command verdicts of every reply class.
+EXTRA = (['%s/raise' % b for b in ('EHLO', 'HELO', 'MAIL', 'RCPT', 'DATA', 'RSET', 'NOOP', 'QUIT', 'STARTTLS', 'AUTH')]
+         + ['DATA/ok/raise', 'DATA/ok/qfail', 'EHLO/221', 'RCPT/221', 'DATA/221', 'RSET/221', 'RCPT/451', 'MAIL/554']
+         + ['XCMD/' + v for v in ('450', '550', '421', '221', '354', 'asis', 'raise')] + list(EXTRA_BASES))
+# the session-ending variants of a command (pipelined strata: a closing verdict at every command position)
+CLOSERS = {'EHLO': ['EHLO/421', 'EHLO/221', 'EHLO/raise', 'EHLO8bit'], 'HELO': ['HELO/421', 'HELO/raise'],
+           'MAIL': ['MAIL/421', 'MAIL/221', 'MAIL/raise', 'MAIL8bit'],
+           'RCPT': ['RCPT/421', 'RCPT/221', 'RCPT/raise', 'RCPT8bit'],
+           'DATA': ['DATA/421', 'DATA/221', 'DATA/raise', 'DATA/ok/421', 'DATA/ok/221', 'DATA/ok/raise'],
+           'RSET': ['RSET/421', 'RSET/221', 'RSET/raise'], 'NOOP': ['NOOP/421', 'NOOP/raise', 'QUIT'],
+           'QUIT': ['QUIT', 'QUIT/421', 'QUIT/raise'], 'XCMD': ['XCMD/421', 'XCMD/221', 'XCMD/raise'],
+           'STARTTLS': ['STARTTLS/421', 'STARTTLS/raise'], 'AUTH': ['AUTH/421', 'AUTH/raise', 'AUTHchal/421']}
+# ... and the verdicts that must NOT end it (contrast)
+NONCLOSERS = {'EHLO': ['EHLO/550'], 'MAIL': ['MAIL/450', 'MAIL/550'], 'RCPT': ['RCPT/450', 'RCPT/550'],
+              'DATA': ['DATA/550', 'DATA/ok/550', 'DATA/ok/qfail', 'DATAbig', 'DATAempty'], 'RSET': ['RSET/550'], 'NOOP': ['UNK', 'EMPTY'],
+              'QUIT': ['QUIT/450', 'QUITarg'], 'XCMD': ['XCMD/550', 'XCMD/asis', 'XCMD/354'], 'AUTH': ['AUTH/550']}
+SYNC_PREFIXES = ('DATA', 'AUTH', 'STARTTLS')      # a pipelining client waits for the reply to these before it sends more
 # reduced alphabet for the depth-3 enumeration of the thorough tier
 ALPHA3 = ['EHLO', 'EHLO/550', 'HELO', 'MAIL', 'MAIL/550', 'MAIL/421', 'MAILnull', 'MAILnull/550', 'MAILnobr', 'MAILsize',
           'RCPT', 'RCPT/450', 'RCPTnull',
@@ -212,7 +299,7 @@ WALK_WEIGHTS = {'EHLO': 6, 'HELO': 2, 'MAIL': 8, 'RCPT': 8, 'DATA': 6, 'RSET': 3
 
 
 class Unit(object):
-    __slots__ = ('sym', 'base', 'kind', 'line', 'own', 'cont', 'v1', 'v2', 'arg', 'idx')
+    __slots__ = ('sym', 'base', 'kind', 'line', 'own', 'cont', 'v1', 'v2', 'arg', 'idx', 'sync')
 
     def __init__(self, sym, idx):
         p = sym.split('/')
@@ -220,7 +307,10 @@ class Unit(object):
         self.v1 = p[1] if len(p) > 1 else 'ok'
         self.v2 = p[2] if len(p) > 2 else 'ok'
         self.kind, tmpl, self.own, self.cont = BASES[self.base]
-        self.line = (tmpl % idx if b'%d' in tmpl else tmpl) + b'\r\n'
+        self.line = (tmpl % idx if b'%d' in tmpl else tmpl)
+        if not self.line.endswith(b'\n'):
+            self.line += b'\r\n'
+        self.sync = self.base.startswith(SYNC_PREFIXES)
         if self.base in ARGS:
             self.arg = ARGS[self.base]
         else:
@@ -273,21 +363,26 @@ def not3(v):
 
 # ---------------------------------------------------------------- one monitored session
 
-PROTO_CBS = ('EHLO', 'HELO', 'MAIL', 'RCPT', 'DATA', 'HAVE_DATA', 'RSET', 'NOOP', 'QUIT', 'AUTH', 'STARTTLS')
+PROTO_CBS = ('EHLO', 'HELO', 'MAIL', 'RCPT', 'DATA', 'HAVE_DATA', 'RSET', 'NOOP', 'QUIT', 'AUTH', 'STARTTLS', 'XCMD')
 
 
 class Run(object):
     """Driver + log + spec automaton + online checker for one session."""
 
-    def __init__(self, ext, kind, banner, syms):
+    def __init__(self, ext, kind, banner, syms, framing=1):
         self.ext, self.kind, self.banner = ext, kind, banner
         self.units = [Unit(s, i + 1) for i, s in enumerate(syms)]
+        self.framing = framing    # lines per segment: 1 = stop-and-wait, n >= 2 = n-line groups, 0 = one burst
         self.srv = None
         self.session = None
+        self.delivered = lambda: self.fed_total      # set by the wire: bytes the server's reads have returned so far
         # log since the previous recv boundary
         self.out, self.cbs, self.events = [], [], []
         self.total_out = 0
-        # driver
+        # driver: the group of (unit index, stage) slots in flight, the stream offset at which each one ends
+        self.group, self.ends, self.fed_total, self.next_pos, self.ngroups = [], [], 0, 0, 0
+        self.multi = False        # the group being judged holds more than one line
+        self.gi, self.glast, self.final, self.how, self.taken = 0, True, False, None, 0
         self.pos = -1             # index of the current unit; -1 = banner phase
         self.stage = 0
         self.cur = None
@@ -317,32 +412,59 @@ class Run(object):
         self.commands = 0
         self.observations = collections.Counter()
 
+    # ---- which line of the group in flight is the server working on?
+    def locate(self):
+        """Index of the slot whose bytes the server consumed last.  With one line in flight this is trivially 0;
+        in a pipelined group it is read off the server's line buffer (read-only): the bytes its reads have returned
+        so far minus what is still waiting in Server.io.recv_buffer is the stream offset the server has got to."""
+        if len(self.group) <= 1 or self.srv is None:
+            return 0
+        consumed = self.delivered() - len(self.srv.io.recv_buffer)
+        for i, e in enumerate(self.ends):
+            if consumed <= e:
+                return i
+        return len(self.group) - 1
+
+    def current(self):
+        if not self.group:
+            return None
+        return self.units[self.group[self.locate()][0]]
+
     # ---- called by handlers / sockets
     def verdict(self, name):
-        if self.cur is None:
+        u = self.current()
+        if u is None:
             return self.banner if name == 'BANNER_' and self.pos == -1 else 'ok'
-        u = self.cur
         if name == 'HAVE_DATA':
             return u.v2 if u.kind == 'data' else 'ok'
         return u.v1 if name == u.own else 'ok'
 
     def apply(self, name, reply):
         v = self.verdict(name)
-        if v != 'ok' and reply is not None:
+        if v == 'raise':
+            raise HandlerBoom('scripted failure of the %s callback' % name)
+        if name == 'XCMD':
+            if v == 'ok':
+                reply.code, reply.message = '250', '2.0.0 custom command done'
+            elif v != 'asis':
+                reply.code, reply.message = VTEXT[v]
+        elif v != 'ok' and reply is not None:
             reply.code, reply.message = VTEXT[v]
 
     def cb(self, name, arg, reply, exc=None):
-        self.cbs.append((name, arg, getattr(reply, 'code', None), type(exc).__name__ if exc else None))
+        self.cbs.append((name, arg, getattr(reply, 'code', None), type(exc).__name__ if exc else None, self.locate()))
 
     def sent(self, data):
         self.out.append(data)
         self.total_out += len(data)
 
     def event(self, name, detail=None):
-        self.events.append((name, detail))
+        self.events.append((name, detail, self.locate()))
 
     def handoff(self, envelope):
-        self.events.append(('HANDOFF', (envelope.sender, list(envelope.recipients))))
+        self.events.append(('HANDOFF', (envelope.sender, list(envelope.recipients)), self.locate()))
+        if self.verdict('HAVE_DATA') == 'qfail':
+            return [(envelope, QueueError('scripted'))]      # the queue refused the message: the edge answers 451
         return [(envelope, 'id-%d' % len(self.steps))]
 
     # ---- violations
@@ -368,39 +490,64 @@ class Run(object):
                          if self._stage_cb else 'no-callback')
         if with_state:
             parts.append(self._state_before)
+        if self.multi:
+            # seen while several complete lines were delivered in one segment (a framing-independent defect also
+            # shows under its plain name in the stop-and-wait strata)
+            parts.append('in-pipelined-group')
         detail.update({'unit_index': self.pos, 'unit': u.sym if u is not None else None, 'stage': self.stage,
-                       'spec_state_before_unit': self._spec_before})
+                       'spec_state_before_unit': self._spec_before, 'framing': self.framing,
+                       'group': [self.units[i].sym + ('' if not st else ':stage%d' % st) for i, st in self.group]})
         self.viol.append(('/'.join(parts), what, detail))
 
     # ---- the recv boundary
     def boundary(self):
         """The server asks for input and nothing is pending.  Judge what happened since the previous boundary,
-        then return the bytes of the next stage / unit, or None for end-of-stream."""
+        then return the bytes of the next group of lines, or None for end-of-stream."""
         if self.fed_eof:
             return None
-        more = self.close_stage()
+        more = self.close_group()
         if self.ended is not None:
-            # (iv) the stage just judged ended with a 221/421 reply -- and the server is reading again
+            # (iv) the group just judged ended with a 221/421 reply -- and the server is reading again
             self.violate('session-continues-after-%s' % self.ended, 'the server called recv() again after sending '
                          'the final reply %s (%s): the session was not ended' % (self.ended, self.ended_by),
                          with_state=False, tag=self.ended_by)
             self.fed_eof = True
             return None
-        if more is not None:
-            return more
-        return self.next_unit()
+        return self.next_group(more)
 
-    def next_unit(self):
-        self.pos += 1
-        self.stage = 0
-        if self.ended is not None or self.pos >= len(self.units):
-            self.cur = None
+    def next_group(self, more):
+        """What the client sends next, in ONE segment: the continuation of the unit answered last (message content
+        after 354, an AUTH response after 334) and then further command lines -- none (stop-and-wait), up to
+        `framing` slots, or (burst) everything up to the next line a pipelining client has to wait at
+        (DATA, AUTH, STARTTLS: Unit.sync)."""
+        slots, data, ends = [], b'', []
+        limit = self.framing if self.framing else 10 ** 9
+        if more is not None:
+            slots.append((self.pos, self.stage))
+            data += more
+            ends.append(len(data))
+            if self.units[self.pos].base in AUTH_BASES:
+                limit = 1                  # a SASL exchange is never pipelined
+        while len(slots) < limit and self.next_pos < len(self.units) and self.ended is None:
+            u = self.units[self.next_pos]
+            slots.append((self.next_pos, 0))
+            self.next_pos += 1
+            data += u.line
+            ends.append(len(data))
+            if u.sync:
+                break
+        if not slots:
+            self.group, self.ends, self.cur = [], [], None
             self.fed_eof = True
             return None
+        self.group = slots
+        self.ends = [self.fed_total + e for e in ends]
+        self.fed_total += len(data)
+        self.ngroups += 1
+        # while the group is in flight "the current unit" of the wire hooks is its last line (sync lines are last)
+        self.pos, self.stage = slots[-1]
         self.cur = self.units[self.pos]
-        self.commands += 1
-        self._snapshot_before()
-        return self.cur.line
+        return data
 
     def _snapshot_before(self):
         self._state_before = self.state_class()
@@ -412,10 +559,10 @@ class Run(object):
 
     def finish(self, how):
         """handle() has exited."""
-        self.exit = how
+        self.exit = self.how = how
         if not self.fed_eof:
-            # the server stopped on its own: judge the last stage
-            self.close_stage(final=True)
+            # the server stopped on its own: judge the last group
+            self.close_group(final=True)
             if self.ended is None:
                 self.observations['session-ended-by-server-without-221/421:' + how] += 1
         elif self.out or self.cbs:
@@ -431,28 +578,112 @@ class Run(object):
         if self.ended is not None:
             self.hits['close-code-oracle'] += 1
 
-    # ---- judging one stage
-    def close_stage(self, final=False):
+    # ---- judging one group of lines = everything between two recv boundaries
+    def taken_upto(self, cbs):
+        """handle() exited by itself: the last slot of the group the server demonstrably took (a callback ran for
+        it, or its bytes left the server's line buffer)."""
+        p = max([c[4] for c in cbs] or [-1])
+        consumed = self.delivered() - len(self.srv.io.recv_buffer)
+        for i, e in enumerate(self.ends):
+            if e <= consumed:
+                p = max(p, i)
+        return p
+
+    def close_group(self, final=False):
+        """Judge the replies the client received and the callbacks that ran since the group was sent.  The client
+        sees ONE ordered reply stream: the i-th final reply answers the i-th line of the group (a group holds an
+        intermediate-reply command only as its last line), so every slot is owed exactly one reply; the last slot
+        takes whatever is left (more than one = too many).  After a slot whose reply is 221/421 nothing more may
+        arrive and no later line may reach a callback.  If handle() exited by itself (final), only the lines the
+        server demonstrably took are owed a reply -- and those replies must have reached the client."""
         raw = b''.join(self.out)
         cbs, events = self.cbs, self.events
         self.out, self.cbs, self.events = [], [], []
         replies, junk = split_replies(raw)
+        self.final = final
+        if self.pos == -1:
+            self.multi = False
+            codes = [r[0] for r in replies]
+            names = [c[0] for c in cbs if c[0] in PROTO_CBS]
+            self._stage_cb = bool(names)
+            self.steps.append({'unit': '<banner>', 'line': None, 'stage': 0, 'replies': codes, 'group': 0,
+                               'callbacks': [(c[0], c[1], c[2]) + ((c[3],) if c[3] else ()) for c in cbs],
+                               'events': [e[0] for e in events]})
+            if junk:
+                self.violate('malformed-reply-bytes', 'bytes written to the client are not well-formed reply lines: '
+                             '%r' % junk[:3], raw=raw)
+            self.hits['reply-count-oracle'] += 1
+            if any(c[3] for c in cbs):
+                self.hits['handler-exception-oracle'] += 1
+            self.judge_banner(codes, cbs, names, final)
+            return None
+        group = self.group
+        n = len(group)
+        if not n:
+            return None
+        self.multi = n > 1
+        if self.multi:
+            self.hits['pipelined-reply-stream-oracle'] += 1
+        taken = self.taken = self.taken_upto(cbs) if final else n - 1
+        if junk:
+            self.pos, self.stage = group[0]
+            self.cur = self.units[self.pos]
+            self.violate('malformed-reply-bytes', 'bytes written to the client are not well-formed reply lines: %r'
+                         % junk[:3], raw=raw)
+        left = list(replies)
+        more = None
+        for gi, (idx, stage) in enumerate(group):
+            u = self.units[idx]
+            self.pos, self.cur, self.stage, self.gi, self.glast = idx, u, stage, gi, gi == n - 1
+            later = [c[0] for c in cbs if c[4] >= gi and c[0] in PROTO_CBS]
+            if self.ended is not None:
+                # a line behind the closing reply, in the same segment
+                if left or later:
+                    self.violate('session-continues-after-%s' % self.ended, 'after the closing reply %s (%s) the server '
+                                 'went on with the lines already buffered: replies %s, callbacks %s'
+                                 % (self.ended, self.ended_by, [r[0] for r in left], later),
+                                 with_state=False, tag=self.ended_by)
+                else:
+                    self.hits['pipelined-close-mid-group'] += 1
+                    self.observations['pipelined-close-with-lines-behind:%s-%s' % (self.ended_by, self.ended)] += 1
+                break
+            if final and gi > taken and not left and gi > 0:
+                # the server left (exception / connection dropped) at an earlier line of the segment without taking
+                # this one: like a line the stop-and-wait client never got to send
+                self.observations['lines-never-taken-after-server-exit:' + self.how] += 1
+                break
+            if stage == 0:
+                self.commands += 1
+                self._snapshot_before()
+            if final and self.multi and not left:
+                # taken by the server (gi <= taken), handle() is gone, and the reply never reached the client
+                lastu = self.units[group[taken][0]]
+                self._stage_cb = False
+                self.violate('replies-never-reached-client', 'handle() exited (%s) after taking %d line(s) of the '
+                             'segment (callbacks %s), but the client received only %d of the replies: the reply to %s '
+                             'and everything after it was lost'
+                             % (self.how, taken + 1, [c[0] for c in cbs], len(replies), u.sym), with_state=False,
+                             tag='handle-' + self.how.replace('exception:', 'raised-'), last_line_taken=lastu.sym,
+                             exit=self.how, replies_received=[r[0] for r in replies])
+                break
+            mine = left if self.glast else left[:1]
+            left = left[len(mine):]
+            r = self.judge_slot(u, mine, [c for c in cbs if c[4] == gi], [e for e in events if e[2] == gi])
+            if self.glast:
+                more = r
+        return more
+
+    def judge_slot(self, u, replies, cbs, events):
         codes = [r[0] for r in replies]
         names = [c[0] for c in cbs if c[0] in PROTO_CBS]
         self._stage_cb = bool(names)
-        u = self.cur
-        self.steps.append({'unit': u.sym if u else ('<banner>' if self.pos == -1 else '<none>'),
-                           'line': u.line if u and self.stage == 0 else None, 'stage': self.stage, 'replies': codes,
+        self.steps.append({'unit': u.sym, 'line': u.line if self.stage == 0 else None, 'stage': self.stage,
+                           'replies': codes, 'group': self.ngroups,
                            'callbacks': [(c[0], c[1], c[2]) + ((c[3],) if c[3] else ()) for c in cbs],
                            'events': [e[0] for e in events]})
-        if junk:
-            self.violate('malformed-reply-bytes', 'bytes written to the client are not well-formed reply lines: %r'
-                         % junk[:3], raw=raw)
         self.hits['reply-count-oracle'] += 1
-        if self.pos == -1:
-            return self.judge_banner(codes, cbs, names, final)
-        if u is None:
-            return None
+        if any(c[3] for c in cbs):
+            self.hits['handler-exception-oracle'] += 1
         hand = [e for e in events if e[0] == 'HANDOFF']
         if hand and not (u.kind == 'data' and self.stage == 1):
             self.violate('handoff-outside-content', 'an envelope was handed off while answering %s' % u.sym,
@@ -642,6 +873,8 @@ class Run(object):
         return None if e is None else (e.sender is not None, e.sender == '', min(len(e.recipients), 2))
 
     def end_unit(self):
+        if self.pos != -1 and not (self.glast or (self.final and self.gi == self.taken)):
+            return       # mid-group: the implementation is already further on (its state is read at rest only)
         f = self.impl_flags()
         self.states.append((self.spec_tuple(), f, self.env_shape()))
         if self.ended is not None:
@@ -688,8 +921,15 @@ class RecHandler(object):
         self.run = run
 
     def _do(self, name, reply, arg=None):
-        self.run.apply(name, reply)
+        try:
+            self.run.apply(name, reply)
+        except HandlerBoom as e:
+            self.run.cb(name, arg, reply, e)
+            raise
         self.run.cb(name, arg, reply)
+
+    def XCMD(self, reply, arg, server):
+        self._do('XCMD', reply, arg.decode('latin-1') if arg is not None else None)
 
     def BANNER_(self, reply):
         self._do('BANNER_', reply)
@@ -753,7 +993,7 @@ edge_smtp.PtrLookup = _NoPtrLookup      # no resolver threads / DNS in the sandb
 
 
 def _logged(name):
-    base = getattr(SmtpSession, name)
+    base = getattr(SmtpSessionX, name)
 
     def method(self, *args):
         exc = None
@@ -765,18 +1005,29 @@ def _logged(name):
         finally:
             reply = args[0] if args and hasattr(args[0], 'code') else None
             arg = args[1] if len(args) > 1 and isinstance(args[1], str) else None
+            if name == 'XCMD' and len(args) > 1 and isinstance(args[1], bytes):
+                arg = args[1].decode('latin-1')
             self._c07.cb(name, arg, reply, exc)
     method.__name__ = name
     return method
 
 
-class LoggedSession(SmtpSession):
-    """The real SmtpSession; every upper-case method the Server can call is logged after it ran."""
+# The real SmtpSession (plus one application-defined command); every upper-case method the Server can call is logged
+# after it ran.
+def _session_xcmd(self, reply, arg, server):
+    # an application's session_class adding its own command
+    self._c07.apply('XCMD', reply)
+
+
+SmtpSessionX = type('SmtpSessionX', (SmtpSession,), {'XCMD': _session_xcmd})
+
+
+class LoggedSession(SmtpSessionX):
     _c07 = None
 
 
-for _n in dir(SmtpSession):
-    if _n.isupper() and not _n.startswith('_') and callable(getattr(SmtpSession, _n)):
+for _n in dir(SmtpSessionX):
+    if _n.isupper() and not _n.startswith('_') and callable(getattr(SmtpSessionX, _n)):
         setattr(LoggedSession, _n, _logged(_n))
 
 
@@ -804,7 +1055,8 @@ def make_validators(run):
             run.apply('DATA', reply)
 
         def handle_have_data(self, reply, data):
-            run.apply('HAVE_DATA', reply)
+            if run.verdict('HAVE_DATA') != 'qfail':       # 'qfail' is delivered by the hand-off, not by the validator
+                run.apply('HAVE_DATA', reply)
 
         def handle_rset(self, reply):
             run.apply('RSET', reply)
@@ -824,7 +1076,9 @@ class _HookedSSL(gssl.SSLSocket):
 
     def recv(self, *a, **k):
         self._c07.before_recv()
-        return gssl.SSLSocket.recv(self, *a, **k)
+        d = gssl.SSLSocket.recv(self, *a, **k)
+        self._c07.got += len(d)
+        return d
 
     def sendall(self, data, *a, **k):
         self._c07.run.sent(bytes(data))
@@ -839,7 +1093,9 @@ class _PlainEnd(object):
 
     def recv(self, n, *flags):
         self.wire.before_recv()
-        return self.real.recv(n)
+        d = self.real.recv(n)
+        self.wire.got += len(d)
+        return d
 
     def sendall(self, data, *flags):
         self.wire.run.sent(bytes(data))
@@ -908,6 +1164,8 @@ class PairWire(object):
         self.sock = _PlainEnd(self.a, self)
         self.context = _CtxProxy(self)
         self.client_seen = []
+        self.put = self.got = 0       # plaintext bytes the client sent / the server's reads returned
+        run.delivered = lambda: self.got
 
     def drain(self):
         """The client reads whatever the server has written so far (never blocks)."""
@@ -927,11 +1185,14 @@ class PairWire(object):
             pass
 
     def before_recv(self):
+        if self.got < self.put:
+            return       # not a boundary: the server has not yet read everything the client sent (segment > one read)
         self.drain()
         data = self.run.boundary()
         if data is None:
             self.close_client()
         else:
+            self.put += len(data)
             self.client.sendall(data)
 
     def close_client(self):
@@ -960,14 +1221,16 @@ def script_wire(run):
 
     def on_send(ss, data):
         run.sent(data)
-    return ScriptSocket([], eof=True, on_recv=on_recv, on_send=on_send)
+    sock = ScriptSocket([], eof=True, on_recv=on_recv, on_send=on_send)
+    run.delivered = lambda: sock.consumed
+    return sock
 
 
 _SASL = {}
 
 
-def run_session(ext, kind, banner, syms):
-    run = Run(ext, kind, banner, syms)
+def run_session(ext, kind, banner, syms, framing=1):
+    run = Run(ext, kind, banner, syms, framing)
     feats = EXT_FEATURES[ext]
     wire = None
     kw = {}
@@ -1049,14 +1312,17 @@ def classify(raw):
 _BFS = {}     # (ext, kind) -> {'seen': {state: (banner, syms)}, 'queue': deque, 'closed': bool, 'transitions': int}
 
 
-def _case(mode, ext, kind, banner, syms):
-    return {'mode': mode, 'ext': ext, 'kind': kind, 'banner': banner, 'units': list(syms)}
+def _case(mode, ext, kind, banner, syms, framing=1):
+    c = {'mode': mode, 'ext': ext, 'kind': kind, 'banner': banner, 'units': list(syms)}
+    if framing != 1:
+        c['framing'] = framing
+    return c
 
 
-def alphabet_for(ext):
+def alphabet_for(ext, extra=False):
     feats = EXT_FEATURES[ext]
     out = []
-    for s in ALPHABET:
+    for s in ALPHABET + (EXTRA if extra else []):
         b = s.split('/')[0]
         # without the extension these are all the same "unknown command": keep one representative each
         if 'AUTH' not in feats and b in AUTH_BASES and s != 'AUTH':
@@ -1071,7 +1337,7 @@ def gen_bfs(ext, kind):
     G = _BFS[(ext, kind)] = {'seen': {}, 'queue': collections.deque(), 'closed': False, 'transitions': 0}
     for banner in V4:
         yield _case('bfs', ext, kind, banner, [])
-    alpha = alphabet_for(ext)
+    alpha = alphabet_for(ext, extra=True)
     while G['queue']:
         state = G['queue'].popleft()
         banner, prefix = G['seen'][state]
@@ -1121,11 +1387,92 @@ def gen_walk(rnd, alpha):
     return syms
 
 
+# pipelined strata.  The line a closing verdict is put on always has at least one more line behind it.
+FRAMINGS = (0, 2, 3, 5)          # 0 = one burst up to the next line the client must wait at
+TEMPLATES = {
+    'plain': ['EHLO', 'NOOP', 'MAIL', 'RCPT', 'RCPT', 'DATA', 'XCMD', 'MAIL', 'RCPT', 'RSET', 'HELO', 'MAILnull', 'RCPTpm',
+              'DATA', 'QUIT', 'NOOP', 'NOOP'],
+    'tls-auth': ['EHLO', 'STARTTLS', 'EHLO', 'AUTH', 'NOOP', 'MAIL', 'RCPT', 'DATA', 'RSET', 'QUIT', 'NOOP'],
+}
+PIPE_PREFIXES = ([], ['EHLO'], ['EHLO', 'MAIL', 'RCPT'])
+PIPE_TAIL = ['NOOP', 'RSET']
+
+
+def gen_pipelined(tier, seed=0):
+    # (a) a closing verdict (421 / 221 / handler failure / QUIT / a line the server aborts on) at every command
+    #     position of a template session, and the non-closing rejections for contrast; every framing incl. stop-and-wait
+    for ext, kind in CONFIGS:
+        for tname, tmpl in sorted(TEMPLATES.items()):
+            variants = [list(tmpl)]
+            for i, b in enumerate(tmpl):
+                for v in CLOSERS.get(family(b), []) + NONCLOSERS.get(family(b), []):
+                    variants.append(tmpl[:i] + [v] + tmpl[i + 1:])
+            for syms in variants:
+                for fr in FRAMINGS + (1,):
+                    yield _case('pipe-close', ext, kind, 'ok', syms, fr)
+        for banner in ('421', 'raise', '550'):
+            yield _case('pipe-close', ext, kind, banner, TEMPLATES['plain'], 0)
+    # (b) every symbol (full alphabet incl. EXTRA) with lines before and behind it in the same segment
+    for ext, kind in CONFIGS:
+        alpha = alphabet_for(ext, extra=True)
+        for prefix in PIPE_PREFIXES + (TLS_PREFIXES if 'STARTTLS' in EXT_FEATURES[ext] else ()):
+            for a in alpha:
+                for fr in (0, 2):
+                    yield _case('pipe-single', ext, kind, 'ok', prefix + [a] + PIPE_TAIL, fr)
+    # (c) all pairs over the reduced alphabet + closers, one burst
+    alpha2 = ALPHA3 + ['MAIL/raise', 'RCPT/421', 'RCPT/raise', 'DATA/421', 'DATA/ok/221', 'DATA/ok/raise', 'XCMD', 'XCMD/421',
+                       'NOOP/421', 'EHLO/421', 'MAIL8bit', 'UNKlong']
+    for ci, (ext, kind) in enumerate(CONFIGS):
+        alpha = [x for x in alpha2 if x in alphabet_for(ext, extra=True)]
+        for pi, prefix in enumerate((['EHLO'], ['EHLO', 'MAIL', 'RCPT'])):
+            if tier != 'thorough' and (ci + pi + seed) % 4:
+                continue         # quick: a quarter of the (configuration, prefix) pairs, rotating with the seed
+            for a in alpha:
+                for b in alpha:
+                    yield _case('pipe-depth', ext, kind, 'ok', prefix + [a, b, 'NOOP'], 0)
+
+
+# measured CPU seconds of one BFS closure / of everything else in a tier (only used to balance the shards)
+BFS_COST = {'default': 1.0, 'SIZE': 1.0, 'AUTH': 1.5, 'STARTTLS': 5.0, 'ALL': 11.0}
+REST_COST = {'quick': 230.0, 'thorough': 9000.0}
+
+
+def share_table(tier, nshards):
+    """-> list of shard ids (100 slots): the shards that run a (TLS-heavy) BFS closure take fewer of the other cases."""
+    bfs = [sum(BFS_COST[e] for i, (e, k) in enumerate(CONFIGS) if i % nshards == sh) for sh in range(nshards)]
+    target = (REST_COST[tier] + sum(bfs)) / nshards
+    w = [max(target - b, target * 0.2) for b in bfs]
+    table, acc = [], [0.0] * nshards
+    for _ in range(100):
+        sh = min(range(nshards), key=lambda i: (acc[i] + 1) / w[i])
+        acc[sh] += 1
+        table.append(sh)
+    return table
+
+
 def gen_cases(tier, seed, shard, nshards):
     mine = [c for i, c in enumerate(CONFIGS) if i % nshards == shard]
     for ext, kind in mine:
         for c in gen_bfs(ext, kind):
             yield c
+    table = share_table(tier, nshards)
+    # pipelined framings (several complete lines per segment), systematic part
+    for i, c in enumerate(gen_pipelined(tier, seed)):
+        if table[i % 100] == shard:
+            yield c
+    # seeded random walks: stop-and-wait, then pipelined
+    rnd = random.Random('c07-%d-%d' % (seed, shard))
+    for i in range((NWALKS[tier] + NPIPEWALKS[tier]) // nshards):
+        ext, kind = rnd.choice(mine) if (mine and rnd.random() < 0.7) else rnd.choice(CONFIGS)
+        alpha = alphabet_for(ext, extra=True)
+        syms = gen_walk(rnd, alpha)
+        if rnd.random() < 0.8:
+            syms[0] = rnd.choice(['EHLO', 'EHLO', 'HELO'])
+        banner = 'ok' if rnd.random() < 0.95 else rnd.choice(['450', '550', '421', 'raise'])
+        if i < NWALKS[tier] // nshards:
+            yield _case('walk', ext, kind, banner, syms)
+        else:
+            yield _case('pipe-walk', ext, kind, banner, syms, rnd.choice(FRAMINGS))
     # all sequences up to the depth bound
     n = 0
     for ext, kind in CONFIGS:
@@ -1133,7 +1480,7 @@ def gen_cases(tier, seed, shard, nshards):
         for prefix in DEPTH_PREFIXES + (TLS_PREFIXES if 'STARTTLS' in EXT_FEATURES[ext] else ()):
             for a in alpha:
                 for b in alpha:
-                    if n % nshards == shard:
+                    if table[n % 100] == shard:
                         yield _case('depth', ext, kind, 'ok', prefix + [a, b])
                     n += 1
     if tier == 'thorough':
@@ -1144,7 +1491,7 @@ def gen_cases(tier, seed, shard, nshards):
                 for a in alpha:
                     for b in alpha:
                         for c in alpha:
-                            if n % nshards == shard:
+                            if table[n % 100] == shard:
                                 yield _case('depth', ext, kind, 'ok', prefix + [a, b, c])
                             n += 1
         # full alphabet at depth 3 after EHLO for the configurations that run on the scripted socket
@@ -1155,19 +1502,9 @@ def gen_cases(tier, seed, shard, nshards):
             for a in alpha:
                 for b in alpha:
                     for c in alpha:
-                        if n % nshards == shard:
+                        if table[n % 100] == shard:
                             yield _case('depth', ext, kind, 'ok', ['EHLO', a, b, c])
                         n += 1
-    # seeded random walks
-    rnd = random.Random('c07-%d-%d' % (seed, shard))
-    for i in range(NWALKS[tier] // nshards):
-        ext, kind = rnd.choice(mine) if (mine and rnd.random() < 0.7) else rnd.choice(CONFIGS)
-        alpha = alphabet_for(ext)
-        syms = gen_walk(rnd, alpha)
-        if rnd.random() < 0.8:
-            syms[0] = rnd.choice(['EHLO', 'EHLO', 'HELO'])
-        banner = 'ok' if rnd.random() < 0.95 else rnd.choice(['450', '550', '421'])
-        yield _case('walk', ext, kind, banner, syms)
 
 
 # ---------------------------------------------------------------- the check
@@ -1175,6 +1512,7 @@ def gen_cases(tier, seed, shard, nshards):
 def run_case(case, R):
     ext, kind, banner, syms = case['ext'], case['kind'], case['banner'], list(case['units'])
     mode = case.get('mode', 'seq')
+    framing = case.get('framing', 1)
     G = _BFS.get((ext, kind))
     if mode == 'bfs-closed':
         if G is not None and G['closed']:
@@ -1186,8 +1524,10 @@ def run_case(case, R):
             R.count('bfs-transitions/%s-%s' % (ext, kind), G['transitions'])
         return
     R.eval()
-    run = run_session(ext, kind, banner, syms)
+    run = run_session(ext, kind, banner, syms, framing)
     R.count('sessions/' + mode)
+    if mode.startswith('pipe'):
+        R.count('sessions/framing-%s' % ({0: 'burst', 1: 'stop-and-wait'}.get(framing, '%d-line-groups' % framing)))
     R.count('commands', run.commands)
     if run.exit is not None and run.exit.startswith('watchdog'):
         R.inconclusive('watchdog (%s) ext=%s' % (run.exit, ext))
@@ -1204,11 +1544,13 @@ def run_case(case, R):
     cfg = (ext, kind)
     for i, st in enumerate(run.states):
         R.observe('abstract-state', (cfg, st))
-        if i:
+        if i and framing == 1:
             R.observe('abstract-transition', (cfg, run.states[i - 1], syms[i - 1], st))
     R.observe('reply-code-sequence', tuple(tuple(s['replies']) for s in run.steps))
+    if framing != 1:
+        R.observe('pipelined-group-shape', tuple(collections.Counter(s['group'] for s in run.steps).values()))
     if run.nt_open or run.nt_dep:
-        R.nontrivial((ext, kind, banner, tuple(syms)))
+        R.nontrivial((ext, kind, banner, tuple(syms), framing))
         if run.nt_open:
             R.count('nontrivial/open-transaction')
         if run.nt_dep:
@@ -1239,7 +1581,7 @@ def run_case(case, R):
         R.count('violating-sessions')
         for raw, what, detail in report:
             detail = dict(detail)
-            detail.update({'ext': ext, 'kind': kind, 'banner': banner, 'units': syms, 'steps': run.steps,
+            detail.update({'ext': ext, 'kind': kind, 'banner': banner, 'units': syms, 'framing': framing, 'steps': run.steps,
                            'exit': run.exit, 'raw_mechanism': raw,
                            'all_violations_of_this_session': [v[0] for v in run.viol[:6]]})
             R.violation(classify(raw), what, detail)
